@@ -73,6 +73,7 @@ type Process struct {
 	isMain              bool
 	extraArgs           []string
 	isStopped           atomic.Bool
+	superseded          atomic.Bool // a newer instance of the process owns the (shared) state now
 	stdin               io.WriteCloser
 	passProvided        bool
 	isTuiEnabled        bool
@@ -128,6 +129,11 @@ loop:
 		err := p.setStateAndRun(p.getStartingStateName(), p.getProcessStarter())
 		if errors.Is(err, errProcessStopped) {
 			log.Debug().Str("process", p.getName()).Msg("process stopped before its command was launched")
+			if p.stoppedBeforeLaunch() {
+				p.compareAndSetState(types.ProcessStateCompleted, types.ProcessStatePending, types.ProcessStateTerminating)
+				p.finish("")
+				return 0
+			}
 			break loop
 		}
 		if err != nil {
@@ -374,6 +380,13 @@ func (p *Process) waitUntilLogReady() bool {
 }
 
 func (p *Process) wontRun() {
+	if p.procRunCtx.Err() != nil {
+		// this instance was stopped while it was pending: it must not report a skip on top
+		// of that (the status may already belong to the instance that replaced it)
+		p.compareAndSetState(types.ProcessStateCompleted, types.ProcessStatePending, types.ProcessStateTerminating)
+		p.finish("")
+		return
+	}
 	p.onProcessEnd(types.ProcessStateSkipped)
 }
 
@@ -731,6 +744,9 @@ func (p *Process) stoppedBeforeLaunch() bool {
 func (p *Process) compareAndSetState(to string, from ...string) bool {
 	p.stateMtx.Lock()
 	defer p.stateMtx.Unlock()
+	if p.superseded.Load() {
+		return false
+	}
 	for _, f := range from {
 		if p.procState.Status == f {
 			p.procState.Status = to
@@ -744,6 +760,9 @@ func (p *Process) compareAndSetState(to string, from ...string) bool {
 func (p *Process) setState(state string) {
 	p.stateMtx.Lock()
 	defer p.stateMtx.Unlock()
+	if p.superseded.Load() {
+		return
+	}
 	p.procState.Status = state
 	p.onStateChange(state)
 }
@@ -780,7 +799,7 @@ func (p *Process) setStateAndRun(state string, runnable func() error) error {
 	// the critical section that launches the command, closes the window in which a process
 	// that was just stopped (while pending or waiting to restart) got launched. The context
 	// belongs to this instance; the status is shared with a later instance of the process.
-	if p.procRunCtx.Err() != nil {
+	if p.procRunCtx.Err() != nil || p.superseded.Load() {
 		return errProcessStopped
 	}
 	p.launched = true
